@@ -23,12 +23,22 @@ from lbry.blob_exchange.client import BlobExchangeClientProtocol, request_blob
 from lbry.blob_exchange.serialization import BlobResponse
 from lbry.blob_exchange.server import BlobServer, BlobServerProtocol
 from lbry.conf import Config
+from lbry.connection_manager import ConnectionManager
 from lbry.error import InvalidBlobHashError, InvalidDataError
 
 import vlib
 
 MAX_BLOB = 2 * 2 ** 20
 MAX_RESP = 16 * 1024
+PEER_HOSTS = ['127.0.0.1', '::1', '10.11.12.13', 'fe80::1ff:fe23:4567:890a', '127.0.0.1', '::1']
+
+
+def case_variant(case, n):
+    """a number derived from the case itself (not from the generator's random stream): which peer address the case
+    uses and whether bandwidth tracking (ConnectionManager) is running"""
+    return int(hashlib.sha1(vlib.canon({k: v for k, v in case.items() if k not in ('host', 'track')}).encode()).hexdigest()[:8], 16) % n
+
+
 CONNECT_T = 1        # peer_connect_timeout, always smaller than every blob_download_timeout used (T >= 2)
 WORK_BOUND = MAX_RESP * (MAX_RESP + 1) // 2 + (1 << 20)   # every '}' below the cap, once per segment
 RESP_KEYS = {'lbrycrd_address', 'available_blobs', 'blob_data_payment_rate', 'incoming_blob'}
@@ -408,10 +418,17 @@ def wfin_state(f):
 class ClientSession:
     """several request_blob calls through ONE reused connection object, each against a scripted peer"""
 
-    def __init__(self, T):
+    def __init__(self, T, host='127.0.0.1', track=False):
         self.T = T
+        self.host = host
         self.loop = VLoop()
         asyncio.set_event_loop(self.loop)
+        self.cm = None
+        if track:
+            # bandwidth tracking as in production (Config.track_bandwidth defaults to True): the protocols call
+            # sent_data / received_data on their hot path
+            self.cm = ConnectionManager(self.loop)
+            self.cm.start()
         self.dir = tempfile.mkdtemp(prefix='c10c')
         self.transports = []
         self.loop.fake_connect = self._connect
@@ -423,6 +440,8 @@ class ClientSession:
         return t
 
     def close(self):
+        if self.cm:
+            self.cm.stop()
         self.loop.shutdown()
         asyncio.set_event_loop(None)
         shutil.rmtree(self.dir, ignore_errors=True)
@@ -441,7 +460,8 @@ class ClientSession:
         self.last_blob, self.last_dir = blob, d
         lens_seen = {blob.length}
         t0 = loop.vt
-        task = loop.create_task(request_blob(loop, blob, '127.0.0.1', 4444, CONNECT_T, self.T, connected_protocol=self.proto))
+        task = loop.create_task(request_blob(loop, blob, self.host, 4444, CONNECT_T, self.T, connected_protocol=self.proto,
+                                             connection_manager=self.cm))
         done_at = []
         task.add_done_callback(lambda _t: done_at.append(loop.vt))
         loop.drain()
@@ -509,7 +529,7 @@ class ClientSession:
             'received': proto._blob_bytes_received,
             'len': blob.length,
             'buf': proto.buf.hex(),
-            'now': int(loop.vt),
+            'now': int(round(loop.vt)),
         }
         extra = {'verified_flag': verified, 'on_disk': on_disk, 'elapsed': loop.vt - t0, 'request': sent_request,
                  'task': task, 'transport_closed': tr.closing, 'raised': list(tr.raised),
@@ -575,7 +595,7 @@ def monitor_client(req, obs, extra, T):
         return ('WORK: one data_received call fed %d bytes to json.loads (re-parsing at every "}"; %d bytes received in all): '
                 'a peer can stall the event loop past every timeout' % (extra['json_bytes'], extra['rx']))
     if req.get('tag') in ('silence', 'short_silence', 'json_truncated') and extra['done_after'] is not None \
-            and not any(e[0] == 'lost' for e in req['events']) and extra['done_after'] < T:
+            and not any(e[0] == 'lost' for e in req['events']) and extra['done_after'] < T - 1e-6:
         return ('a stalled peer was given up after %s s, before blob_download_timeout=%s s (peer_connect_timeout is %s s)'
                 % (extra['done_after'], T, CONNECT_T))
     if extra['idle_data'] and obs['open']:
@@ -592,7 +612,10 @@ def run_client_case(run, model, case):
     """case: {'kind':'client','T':..,'requests':[{'hash','known','events','truth','honest','tag'}...]}"""
     T = case['T']
     Flags.unmodelled = False
-    sess = ClientSession(T)
+    v = case_variant(case, 2 * len(PEER_HOSTS))
+    host, track = case.get('host', PEER_HOSTS[v // 2]), case.get('track', v % 2 == 0)
+    sess = ClientSession(T, host=host, track=track)
+    run.count('peer:%s%s' % ('ipv6' if ':' in host else 'ipv4', '+tracking' if track else ''))
     impl, bad, sig = [], None, None
     try:
         for i, rq in enumerate(case['requests']):
@@ -933,7 +956,8 @@ class ServerWorld:
     """a real BlobManager holding verified blobs (written through real writers) and real BlobServerProtocol
     objects, one per fake connection, all on one virtual-clock loop"""
 
-    def __init__(self, blobs, loop=None, adopted=()):
+    def __init__(self, blobs, loop=None, adopted=(), track=False, host='127.0.0.1'):
+        self.host = host
         self.loop = loop or VLoop()
         self.own_loop = loop is None
         asyncio.set_event_loop(self.loop)
@@ -955,10 +979,12 @@ class ServerWorld:
                 # a blob file adopted at start-up: verified on disk, not (yet) in the completed index
                 self.bm.completed_blob_hashes.discard(h)
         self.conns = []
+        if track:
+            self.bm.connection_manager.start()
 
     def connect(self, stall_after=None, port=None, drain=True):
         p = BlobServerProtocol(self.loop, self.bm, ADDRESS, idle_timeout=IDLE_T, transfer_timeout=TRANSFER_T)
-        t = FakeTransport(self.loop, p, peer=('127.0.0.1', port or (5000 + len(self.conns))), stall_after=stall_after)
+        t = FakeTransport(self.loop, p, peer=(self.host, port or (5000 + len(self.conns))), stall_after=stall_after)
         t.server_proto = p
         self.conns.append(t)
         if drain:
@@ -1084,7 +1110,8 @@ def run_server_case(run, model, case):
     Flags.unmodelled = False
     blobs = [bytes.fromhex(x) for x in case['blobs']]
     adopted = set(case.get('adopted', []))
-    world = ServerWorld(blobs, adopted=adopted)
+    v = case_variant(case, 2 * len(PEER_HOSTS))
+    world = ServerWorld(blobs, adopted=adopted, track=case.get('track', v % 2 == 0), host=case.get('host', PEER_HOSTS[v // 2]))
     bad = None
     try:
         t = world.connect(stall_after=case.get('stall'))
@@ -1332,13 +1359,17 @@ def run_e2e_case(run, model, case):
     T = 5
     loop = VLoop()
     adopted = {sha(b) for b, a in zip(blobs, case.get('adopted', [])) if a}
-    world = ServerWorld(blobs, loop=loop, adopted=adopted)
+    v = case_variant(case, 2 * len(PEER_HOSTS))
+    world = ServerWorld(blobs, loop=loop, adopted=adopted, track=v % 2 == 0, host=PEER_HOSTS[v // 2])
     cdir = tempfile.mkdtemp(prefix='c10e')
+    ccm = ConnectionManager(loop)
+    if v % 3 != 0:
+        ccm.start()
     pipe = Pipe(loop, rng, *case['modes'])
     bad = None
 
     def connect(p, host, port):
-        pipe.ct = FakeTransport(loop, p)
+        pipe.ct = FakeTransport(loop, p, peer=(host, port))
         pipe.st = world.connect(drain=False)
         pipe.ct.on_write = lambda d: pipe.buf['c2s'].extend(d)
         pipe.st.on_write = lambda d: pipe.buf['s2c'].extend(d)
@@ -1357,7 +1388,8 @@ def run_e2e_case(run, model, case):
             known = blob.length
             pipe.new_message()
             n0 = len(pipe.delivered['s2c'])
-            task = loop.create_task(request_blob(loop, blob, '127.0.0.1', 4444, CONNECT_T, T, connected_protocol=proto))
+            task = loop.create_task(request_blob(loop, blob, PEER_HOSTS[(v // 2 + 1) % len(PEER_HOSTS)], 4444, CONNECT_T, T,
+                                             connected_protocol=proto, connection_manager=ccm))
             loop.drain()
             pipe.pump()
             loop.drain()
@@ -1802,6 +1834,84 @@ def run_tcp_twoclients_case(run, case):
         run.violation(case, bad, signature=dict(case))
 
 
+def run_tcp_hosts_case(run, case):
+    """thorough, real loopback: the real client (request_blob, bandwidth tracking running) fetches blobs from an honest
+    scripted server reached over 127.0.0.1 and over the IPv6 literal ::1"""
+    rng = random.Random(case['seed'])
+    blobs = [rng.randbytes(sz) for sz in case['sizes']]
+    loop = asyncio.new_event_loop()
+    asyncio.set_event_loop(loop)
+    cdir = tempfile.mkdtemp(prefix='c10h')
+    bad = None
+
+    class Honest(asyncio.Protocol):
+        def connection_made(self, transport):
+            self.t, self.buf = transport, b''
+
+        def data_received(self, data):
+            self.buf += data
+            if not self.buf.endswith(b'}'):
+                return
+            req, self.buf = json.loads(self.buf), b''
+            h = req['requested_blob']
+            body = {sha(b): b for b in blobs}[h]
+            self.t.write(honest_header(h, len(body)))
+            self.t.write(body)
+
+    async def go():
+        cm = ConnectionManager(loop)
+        cm.start()
+        try:
+            for host in case['hosts']:
+                try:
+                    srv = await loop.create_server(Honest, host, 0)
+                except OSError:
+                    run.count('tcp-hosts:unavailable:' + host)
+                    continue
+                port = srv.sockets[0].getsockname()[1]
+                proto = None
+                for i, b in enumerate(blobs):
+                    d = os.path.join(cdir, '%s_%d' % (host.replace(':', '_'), i))
+                    os.mkdir(d)
+                    cb = BlobFile(loop, sha(b), rng.choice([None, len(b)]), None, d)
+                    try:
+                        n, proto = await asyncio.wait_for(
+                            request_blob(loop, cb, host, port, 2, 5, connected_protocol=proto, connection_manager=cm), 30)
+                    except Exception as e:  # noqa
+                        return 'honest transfer of %d bytes from %s raised %r (bandwidth tracking running)' % (len(b), host, e)
+                    if proto is None or n != len(b):
+                        return 'honest transfer of %d bytes from %s failed: %r' % (len(b), host, (n, proto is not None))
+                    await asyncio.wait_for(cb.verified.wait(), 5)
+                    if open(os.path.join(d, sha(b)), 'rb').read() != b:
+                        return 'honest transfer from %s stored different bytes' % host
+                    cb.close()
+                if proto:
+                    proto.close()
+                srv.close()
+            return None
+        finally:
+            cm.stop()
+    try:
+        bad = loop.run_until_complete(asyncio.wait_for(go(), 120))
+    except Exception as e:  # noqa
+        bad = 'tcp hosts case crashed: %r' % (e,)
+    finally:
+        try:
+            for t in asyncio.all_tasks(loop):
+                t.cancel()
+            loop.run_until_complete(asyncio.sleep(0.01))
+            loop.run_until_complete(loop.shutdown_default_executor())
+        except Exception:
+            pass
+        loop.close()
+        asyncio.set_event_loop(None)
+        shutil.rmtree(cdir, ignore_errors=True)
+    run.case(case, nontrivial=True, validated=False)
+    run.count('tcp-hosts')
+    if bad:
+        run.violation(case, bad, signature=dict(case))
+
+
 def gen_tcp_case(rng, i):
     n = rng.choice([1, 2, 3])
     sizes = [rng.choice([1, 100, 4096, 70000, MAX_BLOB - 1, MAX_BLOB]) if j == 0 else rng.choice([1, 4096, 300000]) for j in range(n)]
@@ -2083,6 +2193,8 @@ def run_downloader_case(run, model, case):
         conf.blob_download_timeout = 3.0
         conf.peer_connect_timeout = 2.0
         bm = BlobManager(loop, d, StubStorage(), conf)
+        if case_variant(case, 2) == 0:
+            bm.connection_manager.start()
         peers, kpeers = {}, []
         for i, pd in enumerate(case['peers']):
             port = 6000 + i
@@ -2805,6 +2917,8 @@ def main(run):
         '(load_descriptor / read_blob): a peer lying once about a content blob or the sd blob, then an honest peer; re-reads. '
         'memonly: save_blobs=False histories download -> consume -> request again (client) and serve -> asked again (server). '
         'downloader groups: a warm-up download, then two different blobs concurrently through one BlobDownloader. '
+        'every client / server / e2e / downloader case is assigned (by a hash of the case) a peer address out of 127.0.0.1, ::1, '
+        '10.11.12.13, fe80::... and a running or stopped ConnectionManager (bandwidth tracking). '
         'parse: _parse_blob_response on mutated headers. thorough adds loopback TCP with the real BlobServer. '
         'distinct = distinct canonical case; non-trivial = every case.' % (len(MISBEHAVIOURS), len(SERVER_TAGS)))
     corpus_dir = os.path.join(vlib.VERIF, 'harness', 'corpus', 'C10')
@@ -2902,6 +3016,8 @@ def main(run):
     if thorough:
         for i in range(27):
             dispatch(run, None, gen_tcp_case(rng, i))
+        run_tcp_hosts_case(run, {'kind': 'tcp-hosts', 'seed': rng.randrange(1 << 30), 'sizes': [1, 40000, 2 * 2 ** 20],
+                                 'hosts': ['127.0.0.1', '::1']})
         for i in range(4):
             run_tcp_twoclients_case(run, {'kind': 'tcp-twoclients', 'seed': rng.randrange(1 << 30), 'size': 2 * 2 ** 20,
                                           'b_first': rng.choice([1000, 100000]), 'a_read': rng.choice([1, 50000]),
